@@ -80,7 +80,7 @@ def replay(ctx, path):
     one = os.path.join(ctx.scratch, "one.jsonl")
     open(one, "w").write(json.dumps(rp["behaviour"]["events"]) + "\n")
     obs = os.path.join(ctx.scratch, "sf.ndjson")
-    V.harness(ctx, ["sf-replay", "-in", one, "-out", obs, "-only", 0, "-target", rp["behaviour"]["target"], "-workers", 1])
+    V.harness(ctx, ["sf-replay", "-in", one, "-out", obs, "-only", 0, "-target", rp["behaviour"]["target"], "-seed", rp["behaviour"].get("vseed", 1), "-workers", 1])
     validate(ctx, obs, "V-replay")
     print(open(obs).read()[:6000])
     return V.finish(ctx, RULE)
